@@ -74,6 +74,11 @@ fn build_file(c: &Case) -> std::fs::File {
         let _ = f.seek(SeekFrom::Start((b * 0x4000 + 0x3ffe) as u64));
         let _ = f.write_all(&[(b & 0xff) as u8 ^ 0x3c, 0x99]);
     }
+    // bank 0 carries the end-of-bank stamp too (a bank number that wraps to 0 shows it at 0x7FFE)
+    if c.len >= 0x4000 {
+        let _ = f.seek(SeekFrom::Start(0x3ffe));
+        let _ = f.write_all(&[0x3c, 0x99]);
+    }
     let _ = f.seek(SeekFrom::Start(0));
     f
 }
@@ -241,6 +246,14 @@ fn exec_case(c0: &Case, rec: &mut Rec, counting: bool) -> CaseResult {
                     let got_lo = gbint::mem::memory_read_byte(p, 0x4000) as usize | ((gbint::mem::memory_read_byte(p, 0x4001) ^ 0xa5) as usize) << 8;
                     if want.len() == 1 && want[0] >= 1 && stamps.contains(&want[0]) && got_lo != want[0] {
                         return Err(format!("after writing {:#04x} to 0x2000 the {:?} controller of a {}-bank ROM must map bank {} at 0x4000, stamp read there says {}", s, kind, nb, want[0], got_lo));
+                    }
+                    // the stamp at the end of the bank, which bank 0 carries as well: a bank
+                    // number that reduces to 0 on a small ROM must show bank 0
+                    if want.len() == 1 && (want[0] == 0 || stamps.contains(&want[0])) && c.len >= 0x4000 * (want[0] + 1) {
+                        let (e0, e1) = (gbint::mem::memory_read_byte(p, 0x7ffe), gbint::mem::memory_read_byte(p, 0x7fff));
+                        if e1 != 0x99 || e0 ^ 0x3c != (want[0] & 0xff) as u8 {
+                            return Err(format!("after writing {:#04x} to 0x2000 the {:?} controller of a {}-bank ROM must map bank {} at 0x4000; the end-of-bank stamp read at 0x7FFE says bank {} (marker {:#04x})", s, kind, nb, want[0], e0 ^ 0x3c, e1));
+                        }
                     }
                 }
                 // last declared ROM byte
